@@ -2368,5 +2368,75 @@ theorem parseGLR_forest_sound (hw : T.wf g = true) (hidem : ∀ p, inp.skip (inp
   obtain ⟨e, hd, he⟩ := accepted_trees_sound hw sF hinv a ha l hl t ht
   exact ⟨⟨e, hd⟩, fun hc => ⟨e, hd, he hc⟩⟩
 
+/-! ### An executable check that a given tree is in the packed forest -/
+
+mutual
+  /-- Executable `TreeOf`: is the tree one of those packed under the link? (Recorded spans of interior
+  nodes are not looked at, as in `TreeOf`.) -/
+  def treeOfB (s : GState) : Nat → Tree → Bool
+    | l, .leaf a st en => (s.link l).poss.any (fun p =>
+        match p with
+        | .term a' st' en' => a' == a && st' == st && en' == en
+        | .nonterm _ _ => false)
+    | l, .node pid _ _ cs => (s.link l).poss.any (fun p =>
+        match p with
+        | .nonterm pid' kids => pid' == pid && treesOfB s kids cs
+        | .term _ _ _ => false)
+  def treesOfB (s : GState) : List Nat → List Tree → Bool
+    | [], [] => true
+    | k :: ks, c :: cs => treeOfB s k c && treesOfB s ks cs
+    | [], _ :: _ => false
+    | _ :: _, [] => false
+end
+
+mutual
+  theorem treeOfB_sound (s : GState) : ∀ (t : Tree) (l : Nat), treeOfB s l t = true → TreeOf s l t
+    | .leaf a st en, l, h => by
+      simp only [treeOfB, List.any_eq_true] at h
+      obtain ⟨p, hp, hm⟩ := h
+      cases p with
+      | term a' st' en' =>
+        simp only [Bool.and_eq_true, beq_iff_eq] at hm
+        obtain ⟨⟨rfl, rfl⟩, rfl⟩ := hm
+        simp only [TreeOf]; exact hp
+      | nonterm _ _ => simp at hm
+    | .node pid sp ep cs, l, h => by
+      simp only [treeOfB, List.any_eq_true] at h
+      obtain ⟨p, hp, hm⟩ := h
+      cases p with
+      | term _ _ _ => simp at hm
+      | nonterm pid' kids =>
+        simp only [Bool.and_eq_true, beq_iff_eq] at hm
+        obtain ⟨rfl, hk⟩ := hm
+        simp only [TreeOf]
+        exact ⟨kids, hp, treesOfB_sound s cs kids hk⟩
+  theorem treesOfB_sound (s : GState) : ∀ (cs : List Tree) (ks : List Nat), treesOfB s ks cs = true → TreesOf s ks cs
+    | [], [], _ => by simp [TreesOf]
+    | [], _ :: _, h => by simp [treesOfB] at h
+    | _ :: _, [], h => by simp [treesOfB] at h
+    | c :: cs, k :: ks, h => by
+      simp only [treesOfB, Bool.and_eq_true] at h
+      simp only [TreesOf]
+      exact ⟨treeOfB_sound s c k h.1, treesOfB_sound s cs ks h.2⟩
+end
+
+/-- Is the tree packed under one of the root links (the links of the accepted heads)? -/
+def forestHasTree (s : GState) (t : Tree) : Bool :=
+  s.accepted.any (fun a => (s.parents a).any (fun l => treeOfB s l t))
+
+theorem forestHasTree_sound (s : GState) (t : Tree) (h : forestHasTree s t = true) :
+    ∃ a ∈ s.accepted, ∃ l ∈ s.parents a, TreeOf s l t := by
+  simp only [forestHasTree, List.any_eq_true] at h
+  obtain ⟨a, ha, l, hl, ht⟩ := h
+  exact ⟨a, ha, l, hl, treeOfB_sound s t l ht⟩
+
+/-- A tree found in the packed forest of an accepting run is a parse tree of the input. -/
+theorem forestHasTree_parse (hw : T.wf g = true) (hidem : ∀ p, inp.skip (inp.skip p) = inp.skip p)
+    (consume lexDis : Bool) (fuel : Nat) (sF : GState)
+    (h : parseGLR g T inp consume lexDis fuel = .forest sF) (t : Tree) (ht : forestHasTree sF t = true) :
+    IsPrefixParseOf g inp t ∧ (consume = true → IsParseOf g inp t) := by
+  obtain ⟨a, ha, l, hl, htree⟩ := forestHasTree_sound sF t ht
+  exact parseGLR_forest_sound hw hidem consume lexDis fuel sF h a ha l hl t htree
+
 end GLR
 end Pg
